@@ -633,7 +633,10 @@ func (r *run) exec() {
 		inside := r.inWin[s.H-1]
 		injectedStoreFail := s.St == "fail" && !c.empty()
 		if s.N == "Announce" {
-			failed := (fetched && s.Fetch == "fail") || (synced && s.Sync == "fail") || (injectedStoreFail && fetched && s.Fetch == "ok")
+			// a failed ingest, as far as the property is concerned: the block could not be obtained or could not
+			// be written. (Whether a failing sync-state query must abort the ingest is the code's choice: that
+			// is compared with the model as conformance only.)
+			failed := (fetched && s.Fetch == "fail") || (injectedStoreFail && fetched && s.Fetch == "ok")
 			// FailedLeavesNothing
 			if failed && !before.Has && after.Has {
 				r.rep.Violate(sigFailedLeft, fmt.Sprintf("the ingest of height %d failed (fetch=%s sync=%s write=%s) and the height is stored nevertheless",
